@@ -64,6 +64,7 @@ def run(ctx):
         'D5 copy-with-removal zeroes exactly the index it copied',
         'D6 separate_out subtracts exactly the operand data through one index_overlap result',
         'D7 re-indexing refills (reset_chemicals) start from an empty container; the index_overlap memo is keyed by the ordered CAS sequence its value depends on',
+        'D9 whole-array copies between multi-phase indexers / streams (copy_like, copy_flow, hence single-inlet mix_from) happen only between equal phase tuples or after the rows were lined up by label',
         'D8 whenever a stream re-binds its flow container the remembered per-phase sub-streams are dropped or re-attached (otherwise flow moved through ms[phase] is duplicated or lost)',
     ]
     ctx.not_decided = ['numerical equality for all flows', 'correctness of run-time CAS remapping tables']
@@ -95,6 +96,9 @@ def run(ctx):
     overlap_key_rule(ctx, d7)
     # flows are moved between streams through the per-phase sub-streams of multi-phase streams (copy_flow of ms[phase],
     # MultiStream.split_to into multi-phase outlets): those views must stay attached to the rows they advertise
+    d9 = ctx.rule('D9', 'blocks of rows move between multi-phase streams by phase label, never by position', floor=2)
+    from .C12 import alignment
+    alignment(ctx, d9)
     d8 = ctx.rule('D8', 'per-phase views stay attached to the flow rows when the flow container is re-bound', floor=5)
     from .C12 import dependents
     dependents(ctx, d8)
@@ -605,7 +609,9 @@ def copy_flow_rule(ctx, d5):
         oth = g.params[1]
 
         def is_src(e):
-            return isinstance(e.node, ast.Subscript) and e.target.startswith('%s.imol.data[' % oth)
+            # other.imol.data[...]  or a row-sharing view of it: other.imol.data.from_rows([<its own row objects, re-ordered by phase>])[...]
+            # (SparseArray.from_rows keeps the row objects, so a write through the view is a write to the other stream)
+            return isinstance(e.node, ast.Subscript) and (e.target.startswith('%s.imol.data[' % oth) or e.target.startswith('%s.imol.data.from_rows(' % oth))
 
         def is_dst(e):
             return isinstance(e.node, ast.Subscript) and e.target.startswith('self.imol.data[')
@@ -651,6 +657,15 @@ def copy_flow_rule(ctx, d5):
             bad = True
     if not bad and n:
         d5.ok('MultiStream.copy_flow', 'on all %d remove=True paths the zeroed index equals the copied index' % n, g)
+    # the premise used above: from_rows builds a VIEW (it keeps the row objects it is given)
+    fr = prog.method('SparseArray', 'from_rows', rel='thermosteam/base/sparse.py')
+    rp = fr.params[1]
+    keeps = any(isinstance(x, ast.Assign) and any(isinstance(t, ast.Attribute) and t.attr == 'rows' for t in x.targets) and isinstance(x.value, ast.Name) and x.value.id == rp
+                for x in walk_no_nested(fr.node))
+    if keeps:
+        d5.ok('SparseArray.from_rows', 'keeps the row objects it is given (a write through the result is a write to those rows)', fr)
+    else:
+        d5.fail('SparseArray.from_rows', 'view-premise', 'from_rows no longer stores the given row objects: removal through the phase-aligned view of the source would not reach the source', fr, fr.node)
 
 
 # ----------------------------------------------------------------------------
